@@ -24,7 +24,7 @@ ASSUMPTIONS = [
     "Line ends are LF. Bytes-per-line of a record's index entry is only compared when the record's first line is terminated by a newline.",
     "Every record is internally consistently wrapped (all lines but the last have the record's width), as faidx requires.",
 ]
-REQUIRED_CLASSES = ["multi-line", "last-line-full", "last-line-short", "single-line", "description", "marker-character-in-description", "interval-crosses-break", "interval-ends-at-break",
+REQUIRED_CLASSES = ["multi-line", "last-line-full", "last-line-short", "single-line", "description", "marker-character-in-description", "genome-route-3+-intervals", "interval-crosses-break", "interval-ends-at-break",
                     "interval-starts-at-break", "supplied-index", "library-index", "fast-path-label-order-differs", "no-final-newline"]
 BOUNDS = {"quick": "exhaustive: 1 record L<=7 W<=8 and 2 records L<=4 W<=5, every interval; 450 sampled files; one 5.6 MB file (2 read chunks of create_index) and one 16 MB file (4 read chunks)",
           "thorough": "exhaustive: N<=2 L<=7 W<=8 and N=3 L<=4 W<=4; 2500 sampled files; one 5.2 MB file"}
@@ -59,6 +59,8 @@ def layout(case):
 def classify(case):
     cl = [case["index"] + "-index"]
     nontrivial = False
+    if case.get("genome_route") and len(case.get("intervals") or []) >= 3:
+        cl.append("genome-route-3+-intervals")
     for name, desc, seq, w in case["records"]:
         if len(seq) > w:
             cl.append("multi-line")
@@ -147,6 +149,14 @@ def check(case, stats=None):
                     j = next((i for i, (g, x) in enumerate(zip(got, want)) if g != x), None)
                     return [Failure("C17:interval-sequences:string-encoded-path", {"interval": ivs[j] if j is not None else None, "labels": labels,
                                                                                   "expected": want[j] if j is not None else want, "actual": got[j] if j is not None else got})]
+                if case.get("genome_route") and all("_" not in nm for nm in names):
+                    # the other public entry to the indexed file: Genome.from_file(...).read_sequence(), intervals in the given (unsorted) order
+                    gseq = bnp.Genome.from_file(path).read_sequence()
+                    got = [x.upper() for x in gseq.extract_intervals(Interval(names, starts, stops)).tolist()]
+                    if got != [x.upper() for x in want]:
+                        j = next((i for i, (g, x) in enumerate(zip(got, want)) if g != x.upper()), None)
+                        return [Failure("C17:interval-sequences:genome-route", {"interval": ivs[j] if j is not None else None, "n_intervals": len(ivs),
+                                                                             "expected": want[j] if j is not None else want, "actual": got[j] if j is not None else got})]
         except Exception as e:
             return [Failure(f"C17:raised:{type(e).__name__}:{_where(e)}", {"error": repr(e)[:300]})]
         finally:
@@ -204,7 +214,8 @@ def sampled_case(draw, Lmax, Wmax):
         a = min(a, L - 1)
         b = draw(st.one_of(st.sampled_from([p for p in breaks if p > a] or [L]), st.integers(a + 1, L)))
         ivs.append([ri, a, b])
-    case = {"records": recs, "intervals": ivs, "index": draw(st.sampled_from(["library", "supplied"])), "final_nl": draw(st.booleans())}
+    case = {"records": recs, "intervals": ivs, "index": draw(st.sampled_from(["library", "supplied"])), "final_nl": draw(st.booleans()),
+            "genome_route": draw(st.booleans())}
     if n > 1:
         case["label_order"] = draw(st.permutations(list(range(n))))
     return case
